@@ -39,7 +39,7 @@ func (m *F81Model) Distance(seq1 []uint8, seq2 []uint8, weights []float64) (floa
 	diff = diff / total
 
 	if m.gamma {
-		dist = 1. * m.b1 * m.alpha * (math.Pow(1.-diff/m.b1, -1./m.alpha) - 1.)
+		dist = 1. * m.b1 * m.alpha * (gammaPow(1.-diff/m.b1, -1./m.alpha) - 1.)
 	} else {
 		dist = -1. * m.b1 * math.Log(1.-diff/m.b1)
 	}
